@@ -31,6 +31,15 @@
 (*                     the lock and drops the callback (the repaired code)  *)
 (*   GuardedConn       event publication reads the connection under the     *)
 (*                     mutex and refuses when it is nil (the repaired code) *)
+(*   PerCycleWG        every serve cycle has its own WaitGroup (the repaired *)
+(*                     code); with one shared WaitGroup a restart that       *)
+(*                     overtakes the previous Serve call, still inside Wait, *)
+(*                     can make sync.WaitGroup panic ("reused before         *)
+(*                     previous Wait has returned")                          *)
+(*                                                                         *)
+(* Restart: the service can be served again as soon as Shutdown has returned *)
+(* (state stopped); the previous Serve call may not have returned yet - it   *)
+(* is then counted in `old` and returns on its own (OldServeReturn).         *)
 (***************************************************************************)
 EXTENDS Naturals, Sequences, FiniteSets, TLC, SequencesExt
 
@@ -43,7 +52,8 @@ CONSTANTS
     Nil,                \* model value: nil work queue
     MaxCycles,          \* number of Serve/Shutdown cycles explored
     RecheckUnderLock,   \* BOOLEAN
-    GuardedConn         \* BOOLEAN
+    GuardedConn,        \* BOOLEAN
+    PerCycleWG          \* BOOLEAN
 
 \* Script[p]: the groups producer p submits to, in program order (defined by the MC module)
 CONSTANT Script
@@ -66,6 +76,7 @@ VARIABLES
     nc,         \* "nil" | "set"
     closes,     \* how often the connection was closed
     cycle,      \* number of completed Serve calls
+    old,        \* number of overtaken Serve calls (a later Serve started) that have not returned yet
     \* ---- history (observation only; hidden by the VIEW in exhaustive runs) ----
     subm,       \* [Groups -> Seq(callback)]: enqueue order per group
     strt,       \* [Groups -> Seq(callback)]: start order per group
@@ -76,9 +87,9 @@ VARIABLES
     panicked,   \* a nil connection was used / other Go panic
     lateStart   \* a callback started after Shutdown had returned (and before a restart)
 
-vars == <<state, wq, rwork, wkq, nw, wpc, cur, idx, wg, ppc, pk, apc, sdpc, svpc, nc, closes, cycle,
+vars == <<state, wq, rwork, wkq, nw, wpc, cur, idx, wg, ppc, pk, apc, sdpc, svpc, nc, closes, cycle, old,
           subm, strt, done, refused, lost, accepted, panicked, lateStart>>
-view == <<state, wq, rwork, wkq, nw, wpc, cur, idx, wg, ppc, pk, apc, sdpc, svpc, nc, closes, cycle, panicked, lateStart>>
+view == <<state, wq, rwork, wkq, nw, wpc, cur, idx, wg, ppc, pk, apc, sdpc, svpc, nc, closes, cycle, old, panicked, lateStart>>
 
 SeqSet(s) == {s[i] : i \in 1..Len(s)}
 Cb(p) == <<p, pk[p]>>
@@ -92,7 +103,7 @@ Init ==
     /\ wg = 0
     /\ ppc = [p \in Producers |-> "idle"] /\ pk = [p \in Producers |-> 1]
     /\ apc = [a \in ApiCallers |-> "idle"]
-    /\ sdpc = "idle" /\ svpc = "idle" /\ nc = "nil" /\ closes = 0 /\ cycle = 0
+    /\ sdpc = "idle" /\ svpc = "idle" /\ nc = "nil" /\ closes = 0 /\ cycle = 0 /\ old = 0
     /\ subm = [g \in Groups \cup {Par} |-> <<>>] /\ strt = [g \in Groups \cup {Par} |-> <<>>]
     /\ done = {} /\ refused = {} /\ lost = {} /\ accepted = {} /\ panicked = FALSE /\ lateStart = FALSE
 
@@ -119,18 +130,18 @@ Apply(w, d, fin) ==
             /\ lateStart' = (lateStart \/ sdpc = "returned")
        ELSE UNCHANGED <<strt, lateStart>>
 
-WkLock(w) ==
+WkLock0(w) ==
     /\ wpc[w] = "init"
     /\ Apply(w, Dispatch(wq, rwork), {})
     /\ UNCHANGED <<state, wkq, nw, ppc, pk, apc, sdpc, svpc, nc, closes, cycle, subm, refused, lost, accepted, panicked>>
 
-WkReacquire(w) ==
+WkReacquire0(w) ==
     /\ wpc[w] = "woken"
     /\ Apply(w, Dispatch(wq, rwork), {})
     /\ UNCHANGED <<state, wkq, nw, ppc, pk, apc, sdpc, svpc, nc, closes, cycle, subm, refused, lost, accepted, panicked>>
 
 \* the running callback returns; Lock; continue with the same work or retire it
-WkRelock(w) ==
+WkRelock0(w) ==
     /\ wpc[w] = "run"
     /\ LET id == cur[w]
            fin == {wkq[id][idx[w]]}
@@ -153,7 +164,7 @@ WkRelock(w) ==
 \* ---------------------------------------------------------------------------
 HasNext(p) == pk[p] <= Len(Script[p])
 
-RwCheck(p) ==
+RwCheck0(p) ==
     /\ ppc[p] = "idle" /\ HasNext(p)
     /\ IF state = "started"
        THEN /\ ppc' = [ppc EXCEPT ![p] = "checked"]
@@ -164,7 +175,7 @@ RwCheck(p) ==
     /\ UNCHANGED <<state, wq, rwork, wkq, nw, wpc, cur, idx, wg, apc, sdpc, svpc, nc, closes, cycle,
                    subm, strt, done, lost, accepted, panicked, lateStart>>
 
-RwEnqueue(p) ==
+RwEnqueue0(p) ==
     /\ ppc[p] = "checked"
     /\ LET cb == Cb(p) g == GroupOfCb(cb) IN
        IF RecheckUnderLock /\ wq = Nil
@@ -190,7 +201,7 @@ RwEnqueue(p) ==
 
 Parked == {w \in Workers : wpc[w] = "parked"}
 
-RwSignal(p) ==
+RwSignal0(p) ==
     /\ ppc[p] = "signal"
     /\ \/ /\ Parked = {} /\ UNCHANGED wpc
        \/ \E w \in Parked : wpc' = [wpc EXCEPT ![w] = "woken"]
@@ -201,12 +212,12 @@ RwSignal(p) ==
 \* ---------------------------------------------------------------------------
 \* API calls that publish (Reset, ResetAll, TokenEvent, TokenReset, events)
 \* ---------------------------------------------------------------------------
-ApiCheck(a) ==
+ApiCheck0(a) ==
     /\ apc[a] = "idle"
     /\ apc' = [apc EXCEPT ![a] = IF state = "started" THEN "checked" ELSE "done"]
     /\ UNCHANGED <<state, wq, rwork, wkq, nw, wpc, cur, idx, wg, ppc, pk, sdpc, svpc, nc, closes, cycle,
                    subm, strt, done, refused, lost, accepted, panicked, lateStart>>
-ApiUse(a) ==
+ApiUse0(a) ==
     /\ apc[a] = "checked"
     /\ apc' = [apc EXCEPT ![a] = "done"]
     /\ panicked' = (panicked \/ (nc = "nil" /\ ~GuardedConn))
@@ -217,30 +228,30 @@ ApiUse(a) ==
 \* Shutdown / close
 \* ---------------------------------------------------------------------------
 SdStep(from, to) == sdpc = from /\ sdpc' = to
-SdCas == /\ sdpc = "idle" /\ state = "started" /\ svpc = "listen"
+SdCas0 == /\ sdpc = "idle" /\ state = "started" /\ svpc = "listen"
          /\ state' = "stopping" /\ sdpc' = "nil"
          /\ UNCHANGED <<wq, rwork, wkq, nw, wpc, cur, idx, wg, ppc, pk, apc, svpc, nc, closes, cycle,
                         subm, strt, done, refused, lost, accepted, panicked, lateStart>>
-ClNil == /\ SdStep("nil", "bcast") /\ wq' = Nil
+ClNil0 == /\ SdStep("nil", "bcast") /\ wq' = Nil
          /\ UNCHANGED <<state, rwork, wkq, nw, wpc, cur, idx, wg, ppc, pk, apc, svpc, nc, closes, cycle,
                         subm, strt, done, refused, lost, accepted, panicked, lateStart>>
-ClBroadcast == /\ SdStep("bcast", "connclose")
+ClBroadcast0 == /\ SdStep("bcast", "connclose")
                /\ wpc' = [w \in Workers |-> IF wpc[w] = "parked" THEN "woken" ELSE wpc[w]]
                /\ UNCHANGED <<state, wq, rwork, wkq, nw, cur, idx, wg, ppc, pk, apc, svpc, nc, closes, cycle,
                               subm, strt, done, refused, lost, accepted, panicked, lateStart>>
-ClConnClose == /\ SdStep("connclose", "inch") /\ closes' = closes + 1
+ClConnClose0 == /\ SdStep("connclose", "inch") /\ closes' = closes + 1
                /\ UNCHANGED <<state, wq, rwork, wkq, nw, wpc, cur, idx, wg, ppc, pk, apc, svpc, nc, cycle,
                               subm, strt, done, refused, lost, accepted, panicked, lateStart>>
-ClCloseInCh == /\ SdStep("inch", "wait")
+ClCloseInCh0 == /\ SdStep("inch", "wait")
                /\ UNCHANGED <<state, wq, rwork, wkq, nw, wpc, cur, idx, wg, ppc, pk, apc, svpc, nc, closes, cycle,
                               subm, strt, done, refused, lost, accepted, panicked, lateStart>>
-SdWait == /\ SdStep("wait", "clear") /\ wg = 0
+SdWait0 == /\ SdStep("wait", "clear") /\ wg = 0
           /\ UNCHANGED <<state, wq, rwork, wkq, nw, wpc, cur, idx, wg, ppc, pk, apc, svpc, nc, closes, cycle,
                          subm, strt, done, refused, lost, accepted, panicked, lateStart>>
-SdClear == /\ SdStep("clear", "stopped") /\ nc' = "nil"
+SdClear0 == /\ SdStep("clear", "stopped") /\ nc' = "nil"
            /\ UNCHANGED <<state, wq, rwork, wkq, nw, wpc, cur, idx, wg, ppc, pk, apc, svpc, closes, cycle,
                           subm, strt, done, refused, lost, accepted, panicked, lateStart>>
-SdStopped == /\ SdStep("stopped", "returned") /\ state' = "stopped"
+SdStopped0 == /\ SdStep("stopped", "returned") /\ state' = "stopped"
              /\ UNCHANGED <<wq, rwork, wkq, nw, wpc, cur, idx, wg, ppc, pk, apc, svpc, nc, closes, cycle,
                             subm, strt, done, refused, lost, accepted, panicked, lateStart>>
 
@@ -248,41 +259,74 @@ SdStopped == /\ SdStep("stopped", "returned") /\ state' = "stopped"
 \* Serve / serve.  The listener's requests are the submissions of the
 \* producers (a listener is a producer whose program order is channel order).
 \* ---------------------------------------------------------------------------
-SvCas == /\ svpc \in {"idle", "returned"} /\ state = "stopped" /\ cycle < MaxCycles
-         /\ (svpc = "returned" => sdpc = "returned")
+\* Serve: CAS stopped -> starting.  After a Shutdown has returned the previous Serve call may still be
+\* in its listener loop or in its final Wait: it is overtaken and finishes on its own.
+\* (cycle + old + the call in progress = number of Serve calls made so far)
+SvCas == /\ state = "stopped" /\ cycle + old + (IF svpc \in {"idle", "returned"} THEN 0 ELSE 1) < MaxCycles
+         /\ \/ svpc = "idle"
+            \/ svpc \in {"returned", "listen", "wait"} /\ sdpc = "returned"
          /\ state' = "starting" /\ svpc' = "init"
          /\ sdpc' = "idle"
+         /\ old' = IF svpc \in {"listen", "wait"} THEN old + 1 ELSE old
          /\ UNCHANGED <<wq, rwork, wkq, nw, wpc, cur, idx, wg, ppc, pk, apc, nc, closes, cycle,
                         subm, strt, done, refused, lost, accepted, panicked, lateStart>>
+\* an overtaken Serve call returns (its workers are gone since the Shutdown of its cycle returned)
+OldServeReturn == /\ old > 0 /\ old' = old - 1 /\ cycle' = cycle + 1
+                  /\ UNCHANGED <<state, wq, rwork, wkq, nw, wpc, cur, idx, wg, ppc, pk, apc, sdpc, svpc, nc, closes,
+                                 subm, strt, done, refused, lost, accepted, panicked, lateStart>>
 SvInit == /\ svpc = "init" /\ svpc' = "started"
           /\ nc' = "set" /\ wq' = <<>> /\ rwork' = [g \in Groups |-> 0]
           /\ wg' = wg + Cardinality(Workers)
           /\ wpc' = [w \in Workers |-> "init"] /\ cur' = [w \in Workers |-> 0] /\ idx' = [w \in Workers |-> 0]
           /\ subm' = strt      \* what the previous Shutdown did not reach was dropped for good
-          /\ UNCHANGED <<state, wkq, nw, ppc, pk, apc, sdpc, closes, cycle, strt, done, refused, lost, accepted, panicked, lateStart>>
-SvStarted == /\ svpc = "started" /\ svpc' = "listen" /\ state' = "started"
+          \* WaitGroup.Add on a WaitGroup that an overtaken Serve call is still waiting on may panic
+          /\ panicked' \in (IF ~PerCycleWG /\ old > 0 THEN {panicked, TRUE} ELSE {panicked})
+          /\ UNCHANGED <<state, wkq, nw, ppc, pk, apc, sdpc, closes, cycle, old, strt, done, refused, lost, accepted, lateStart>>
+SvStarted0 == /\ svpc = "started" /\ svpc' = "listen" /\ state' = "started"
              /\ UNCHANGED <<wq, rwork, wkq, nw, wpc, cur, idx, wg, ppc, pk, apc, sdpc, nc, closes, cycle,
                             subm, strt, done, refused, lost, accepted, panicked, lateStart>>
 \* the in-channel was closed by close(): the listener loop ends, Serve waits for the workers
-SvListenEnd == /\ svpc = "listen" /\ sdpc \in {"wait", "clear", "stopped", "returned"} /\ svpc' = "wait"
+SvListenEnd0 == /\ svpc = "listen" /\ sdpc \in {"wait", "clear", "stopped", "returned"} /\ svpc' = "wait"
                /\ UNCHANGED <<state, wq, rwork, wkq, nw, wpc, cur, idx, wg, ppc, pk, apc, sdpc, nc, closes, cycle,
                               subm, strt, done, refused, lost, accepted, panicked, lateStart>>
-SvReturn == /\ svpc = "wait" /\ wg = 0 /\ svpc' = "returned" /\ cycle' = cycle + 1
+SvReturn0 == /\ svpc = "wait" /\ wg = 0 /\ svpc' = "returned" /\ cycle' = cycle + 1
             /\ UNCHANGED <<state, wq, rwork, wkq, nw, wpc, cur, idx, wg, ppc, pk, apc, sdpc, nc, closes,
                            subm, strt, done, refused, lost, accepted, panicked, lateStart>>
+
+\* the overtaking bookkeeping is touched by SvCas, SvInit and OldServeReturn only
+WkLock(w) == WkLock0(w) /\ UNCHANGED old
+WkReacquire(w) == WkReacquire0(w) /\ UNCHANGED old
+WkRelock(w) == WkRelock0(w) /\ UNCHANGED old
+RwCheck(p) == RwCheck0(p) /\ UNCHANGED old
+RwEnqueue(p) == RwEnqueue0(p) /\ UNCHANGED old
+RwSignal(p) == RwSignal0(p) /\ UNCHANGED old
+ApiCheck(a) == ApiCheck0(a) /\ UNCHANGED old
+ApiUse(a) == ApiUse0(a) /\ UNCHANGED old
+SdCas == SdCas0 /\ UNCHANGED old
+ClNil == ClNil0 /\ UNCHANGED old
+ClBroadcast == ClBroadcast0 /\ UNCHANGED old
+ClConnClose == ClConnClose0 /\ UNCHANGED old
+ClCloseInCh == ClCloseInCh0 /\ UNCHANGED old
+SdWait == SdWait0 /\ UNCHANGED old
+SdClear == SdClear0 /\ UNCHANGED old
+SdStopped == SdStopped0 /\ UNCHANGED old
+SvStarted == SvStarted0 /\ UNCHANGED old
+SvListenEnd == SvListenEnd0 /\ UNCHANGED old
+SvReturn == SvReturn0 /\ UNCHANGED old
 
 Next ==
     \/ \E w \in Workers : WkLock(w) \/ WkReacquire(w) \/ WkRelock(w)
     \/ \E p \in Producers : RwCheck(p) \/ RwEnqueue(p) \/ RwSignal(p)
     \/ \E a \in ApiCallers : ApiCheck(a) \/ ApiUse(a)
     \/ SdCas \/ ClNil \/ ClBroadcast \/ ClConnClose \/ ClCloseInCh \/ SdWait \/ SdClear \/ SdStopped
-    \/ SvCas \/ SvInit \/ SvStarted \/ SvListenEnd \/ SvReturn
+    \/ SvCas \/ SvInit \/ SvStarted \/ SvListenEnd \/ SvReturn \/ OldServeReturn
 
 \* everything that can happen has happened (used to tell a hang from termination)
 Finished ==
     /\ \A p \in Producers : ~HasNext(p) /\ ppc[p] = "idle"
     /\ \A a \in ApiCallers : apc[a] = "done"
     /\ \A w \in Workers : wpc[w] \in {"none", "done", "parked"}
+    /\ old = 0
     /\ (sdpc = "returned" /\ svpc = "returned") \/ (sdpc = "idle" /\ svpc = "listen" /\ wq = <<>>)
 Terminated == Finished /\ UNCHANGED vars
 
@@ -292,7 +336,7 @@ FairSpec == Spec
             /\ \A p \in Producers : WF_vars(RwCheck(p) \/ RwEnqueue(p) \/ RwSignal(p))
             /\ \A a \in ApiCallers : WF_vars(ApiCheck(a) \/ ApiUse(a))
             /\ WF_vars(ClNil \/ ClBroadcast \/ ClConnClose \/ ClCloseInCh \/ SdWait \/ SdClear \/ SdStopped)
-            /\ WF_vars(SvInit \/ SvStarted \/ SvListenEnd \/ SvReturn)
+            /\ WF_vars(SvInit \/ SvStarted \/ SvListenEnd \/ SvReturn \/ OldServeReturn)
 
 \* ===========================================================================
 \* Properties
@@ -316,7 +360,7 @@ AfterShutdown ==
     (sdpc = "returned" /\ state = "stopped") =>
         /\ \A w \in Workers : wpc[w] = "done"
         /\ wg = 0
-        /\ closes = cycle + (IF svpc = "returned" THEN 0 ELSE 1)
+        /\ closes = cycle + old + (IF svpc = "returned" THEN 0 ELSE 1)
 NoLateStart == ~lateStart
 \* a submission is either accepted or refused, never both, never silently vanished
 Accounted ==
